@@ -889,6 +889,22 @@ class Scenario:
                         S, cond = orp
                         if cond is True or not self.E.check(z3.Not(cond)):
                             self.interrupted |= set(S)
+        elif k == 'set_link' or k == 'unit_links_remove':
+            # unit harness for Links::remove: arbitrary entry count / arbitrary amount (no validity assumption)
+            x = self.h(op['h'], 'rc')
+            t = self.h(op['target'], 'rc')
+            ctor = {'Forward': 'forward', 'Backward': 'backward', 'Loopback': 'loopback'}[op['kind']]
+            link = self.call('Link', None, ctor, Ptr(self.objs[t['obj']].box))
+            lp = Ptr(self.objs[x['obj']].box, (2, 1))
+            if k == 'set_link':
+                oid, md = E.map_of(lp)
+                key = E.map_find(md, link)
+                if key is None:
+                    raise ScriptError('set_link: no such entry')
+                md.vals[key] = self.symvar(op['v']) if isinstance(op['v'], str) else op['v']
+            else:
+                n = self.symvar(op['n']) if isinstance(op['n'], str) else op['n']
+                self.call('Links', None, 'remove', lp, link, n)
         elif k == 'set_strong' or k == 'set_weak':
             # unit harness: arbitrary counter value (no validity assumption)
             x = self.h(op['h'], 'rc')
